@@ -86,7 +86,8 @@ func init() {
 			"map is indexed only in GetSubstitute (which returns exactly the map's comma-ok answer), called only by normalizeValArg, where every 'binding absent' edge ends in handleErr (a single panic) and success returns the looked-up " +
 			"value; placeholder expressions (NewBindVar) are built only on paths with bindCtx == nil, resolve-only mode, or a declined substitution; (B3) every function of root/server/driver that receives bindings " +
 			"(map[string]*BindVariable, map[string]sqlparser.Expr, driver argument slices, *mysql.PrepareData) passes them or their conversion to every callee that takes bindings: SQL EXECUTE, the bindings API and COM_STMT_EXECUTE reach the same " +
-			"planbuilder substitution with nothing dropped.",
+			"planbuilder substitution with nothing dropped. " +
+			"(K1) the prepared cache is keyed by the exact text: every store, lookup and delete on a session map from string to parsed statement uses a string parameter of the enclosing function unchanged as the key (the same map serves named statements and statements prepared by their full text, so a folded key lets a bound statement run the tree cached for another text).",
 		NotCovered: "equality of results and effects between the bound and the inlined execution (depends on the values: typing of a bound literal vs. the same literal in text, e.g. what vitess' ExprFromValue produces for a wire type, " +
 			"is outside the analysed module); stores into the cached tree made inside vitess itself, through reflection, through sub-objects copied from the cached tree into a freshly allocated node, or by " +
 			"packages outside the four listed (sql/procedures rewrites procedure-body statements, sql/stats freshly parsed column types: listed as information); idempotence of the named A1 exceptions is argued by reading, not decided; " +
@@ -95,6 +96,7 @@ func init() {
 		Run: func(c *Ctx) {
 			runC12Ast(c, c12RepoAst(), map[string]int{"C12-A1": 10, "C12-A2": 0})
 			runC12Bind(c, c12RepoBind())
+			runC12Key(c, "sql", func(p *types.Package) bool { return p != nil && p.Path() == c12Vitess+"vt/sqlparser" }, "Statement", []string{"sql"}, 3)
 		},
 		Fixture: func(c *Ctx, fx *Prog) {
 			astCfg := func(rel string) *c12AstCfg {
@@ -157,8 +159,13 @@ func init() {
 					runC12Ast(fc, astCfg("testdata/c12/bad"), map[string]int{})
 					runC12Bind(fc, bindCfg("testdata/c12/bad"))
 				})
+			expectFixture(c, fx, "c12 key: a prepared cache keyed by a folded text",
+				[]string{"C12-K1:vchk/testdata/c12/sess.Session.PutFolded/index folded[strings.ToLower(query)]", "C12-K1:vchk/testdata/c12/sess.Session.GetFolded/index folded[strings.TrimSpace(query)]"},
+				func(fc *Ctx) {
+					runC12Key(fc, "testdata/c12/sess", func(p *types.Package) bool { return p != nil && p.Path() == "vchk/testdata/c12/ast" }, "Node", []string{"testdata/c12/sess"}, 0)
+				})
 		},
-		FixturePkgs: []string{"./testdata/c12/ast", "./testdata/c12/good", "./testdata/c12/bad"},
+		FixturePkgs: []string{"./testdata/c12/ast", "./testdata/c12/good", "./testdata/c12/bad", "./testdata/c12/sess"},
 	})
 }
 
